@@ -50,8 +50,54 @@ func stageErr(stage, format string, a ...interface{}) *StageError {
 	return &StageError{Stage: stage, Why: fmt.Sprintf(format, a...)}
 }
 
+// StyleTLV re-arranges a TLV8 message the way another conformant implementation might write it: the order of
+// the items is free (fragments of one value stay together and in order) and unknown item types must be ignored
+// by the receiver ("shuffled", "extra-items", "both"; "" leaves the message alone).
+func (c *Conn) StyleTLV(b []byte) []byte {
+	if c.TLVStyle == "" || c.StyleRand == nil {
+		return b
+	}
+	items, err := ParseItems(b)
+	if err != nil {
+		return b
+	}
+	var groups [][]Item
+	for i, it := range items {
+		if i > 0 && items[i-1].Tag == it.Tag && len(items[i-1].Val) == 255 {
+			groups[len(groups)-1] = append(groups[len(groups)-1], it)
+			continue
+		}
+		groups = append(groups, []Item{it})
+	}
+	if c.TLVStyle == "extra-items" || c.TLVStyle == "both" {
+		flags := make([]byte, 4)
+		c.StyleRand.Read(flags)
+		groups = append(groups, []Item{{Tag: 0x13, Val: flags}}) // kTLVType_Flags, sent by newer controllers
+		if c.StyleRand.Intn(2) == 0 {
+			groups = append(groups, []Item{{Tag: 0xF0, Val: []byte("vendor")}})
+		}
+	}
+	if c.TLVStyle == "shuffled" || c.TLVStyle == "both" {
+		c.StyleRand.Shuffle(len(groups), func(i, j int) { groups[i], groups[j] = groups[j], groups[i] })
+		// two groups of the same tag must not become adjacent (they would merge): undo such a neighbourhood
+		for i := 1; i < len(groups); i++ {
+			if groups[i][0].Tag == groups[i-1][0].Tag {
+				return b
+			}
+		}
+	}
+	e := &Enc{}
+	for _, g := range groups {
+		for _, it := range g {
+			e.RawItem(it.Tag, it.Val)
+		}
+	}
+	return e.B
+}
+
 // PostTLV posts a TLV8 body and parses the TLV8 answer.
 func (c *Conn) PostTLV(path string, body []byte) (*Message, *TLV, error) {
+	body = c.StyleTLV(body)
 	m, err := c.Do("POST", path, ContentTLV8, body)
 	if err != nil {
 		return nil, nil, err
@@ -184,7 +230,7 @@ func (c *Conn) SetupVerify(s *Setup) error {
 
 // Exchange sends M5 and verifies M6 completely.
 func (c *Conn) SetupExchange(s *Setup) error {
-	sub := SetupM5Plain(s.Srp.K, s.Me.ID, s.Me.LTPK, s.Me.LTSK)
+	sub := c.StyleTLV(SetupM5Plain(s.Srp.K, s.Me.ID, s.Me.LTPK, s.Me.LTSK))
 	m, t, err := c.PostTLV("/pair-setup", SetupM5(s.EncKey, sub))
 	if err != nil {
 		return &StageError{Stage: "setup.M6", Why: "no well-formed answer to M5", Transport: err}
@@ -342,8 +388,8 @@ const StageVerifyRefused = "verify.M4.refused"
 
 // FinishVerify sends M3, checks M4 and switches the connection to the session layer.
 func (c *Conn) FinishVerify(v *Verify) error {
-	sub := VerifyM3Plain(v.Me.ID, v.Me.LTSK, v.Pub[:], v.AccPub)
-	return c.FinishVerifyWith(v, VerifyM3(v.EncKey, sub))
+	sub := c.StyleTLV(VerifyM3Plain(v.Me.ID, v.Me.LTSK, v.Pub[:], v.AccPub))
+	return c.FinishVerifyWith(v, c.StyleTLV(VerifyM3(v.EncKey, sub)))
 }
 
 // FinishVerifyWith sends a prepared M3.
